@@ -19,6 +19,7 @@
 //! CannotGlobalize(InvalidBlueprintId) — never succeeds.
 use radix_native_sdk::modules::metadata::Metadata;
 use radix_native_sdk::modules::role_assignment::RoleAssignment;
+use radix_native_sdk::resource::NativeVault;
 use scrypto_test::prelude::*;
 use radix_engine::system::type_info::TypeInfoSubstate;
 use serde_json::json;
@@ -167,6 +168,7 @@ fn classify(e: &RuntimeError) -> Obs {
             SystemError::InvalidChildObjectCreation => Obs::Err("EInvalidChildObjectCreation"),
             SystemError::InvalidActorStateHandle => Obs::Err("EInvalidActorStateHandle"),
             SystemError::OuterObjectDoesNotExist => Obs::Err("EOuterObjectDoesNotExist"),
+            SystemError::NotAKeyValueStore => Obs::Err("ENotAKeyValueStore"),
             other => Obs::Other(format!("{:?}", other).chars().take(160).collect()),
         },
         other => Obs::Other(format!("{:?}", other).chars().take(160).collect()),
@@ -210,6 +212,7 @@ enum Target {
     GlobalFaucet,
     GlobalXrd,
     TestEnvObj,
+    VaultXrd,
 }
 const TARGETS: &[Target] = &[
     Target::BucketXrd,
@@ -222,6 +225,7 @@ const TARGETS: &[Target] = &[
     Target::GlobalFaucet,
     Target::GlobalXrd,
     Target::TestEnvObj,
+    Target::VaultXrd,
 ];
 
 /// creates the node in the environment's own frame; returns (node, must be moved?, extra owned nodes to move along)
@@ -268,6 +272,11 @@ fn make_target(w: &mut World, t: Target) -> Result<(NodeId, bool, Vec<NodeId>), 
             let n = env.new_object("TestEnvironment", vec![], GenericArgs::default(), fields, index_map_new())?;
             (n, true, vec![])
         }
+        Target::VaultXrd => {
+            // an (empty) vault: inner object of the XRD resource manager, blueprint FungibleVault
+            let v = Vault::create(XRD, env)?;
+            (*v.0.as_node_id(), true, vec![])
+        }
         Target::GlobalFaucet => (*FAUCET.as_node_id(), false, vec![]),
         Target::GlobalXrd => (*XRD.as_node_id(), false, vec![]),
     })
@@ -308,6 +317,7 @@ enum Op {
     Globalize { reserve_for: Option<BlueprintId>, modules: bool }, // None = a non-reservation node is passed
     New(String),
     State(u32),
+    KvOpen,
 }
 
 struct CaseOut {
@@ -330,18 +340,32 @@ fn run_case(w: &mut World, reg: &mut Registry, rng: &mut Rng) -> Result<CaseOut,
             Op::Globalize { reserve_for, modules: rng.chance(2, 3) }
         }
         7 => Op::New(rng.pick(&[FUNGIBLE_BUCKET_BLUEPRINT, FUNGIBLE_PROOF_BLUEPRINT, FUNGIBLE_VAULT_BLUEPRINT, FUNGIBLE_RESOURCE_MANAGER_BLUEPRINT, METADATA_BLUEPRINT, "Faucet", "Nope", WORKTOP_BLUEPRINT]).to_string()),
-        _ => Op::State(*rng.pick(&[0u32, 0, 1, 1, 1, 2, 7, u32::MAX])),
+        8 => Op::State(*rng.pick(&[0u32, 0, 1, 1, 1, 2, 7, u32::MAX])),
+        _ => {
+            if rng.bool() {
+                Op::KvOpen
+            } else {
+                Op::State(*rng.pick(&[0u32, 1, 1, 2]))
+            }
+        }
     };
+    // key-value store handles: half of the KvOpen calls aim at a real store
+    let target_kind = if matches!(op, Op::KvOpen) && rng.bool() { Target::KvStore } else { target_kind };
     let actor_kind = match rng.below(12) {
         0 => ActorKind::Root,
         1..=4 => ActorKind::Function(rng.pick(&pool).clone()),
         5 => ActorKind::Hook(rng.pick(&pool).clone(), rng.bool()),
-        6..=8 => ActorKind::MethodOn(*rng.pick(&[Target::BucketXrd, Target::BucketRes2, Target::GlobalXrd, Target::GlobalFaucet, Target::MetadataObj, Target::ProofXrd]), rng.below(4) as u8),
+        6..=8 => ActorKind::MethodOn(*rng.pick(&[Target::BucketXrd, Target::BucketRes2, Target::GlobalXrd, Target::GlobalFaucet, Target::MetadataObj, Target::ProofXrd, Target::VaultXrd, Target::VaultXrd]), rng.below(4) as u8),
         _ => ActorKind::MethodOnTarget(rng.below(2) as u8),
     };
     // "matching" actors are rare at random: bias towards the actor that has the right
     let actor_kind = if rng.chance(1, 3) {
         match (&op, target_kind) {
+            (Op::Drop, Target::BucketXrd) | (Op::Drop, Target::VaultXrd) if rng.chance(1, 3) => {
+                // a sibling inner object of the other blueprint: vault code drops a bucket and vice versa
+                ActorKind::MethodOn(if target_kind == Target::BucketXrd { Target::VaultXrd } else { Target::BucketXrd }, 0)
+            }
+            (Op::Drop, Target::VaultXrd) => ActorKind::MethodOn(if rng.bool() { Target::GlobalXrd } else { Target::VaultXrd }, 0),
             (Op::Drop, Target::BucketXrd) | (Op::Drop, Target::BucketRes2) => {
                 if rng.bool() {
                     ActorKind::MethodOn(if target_kind == Target::BucketXrd { Target::GlobalXrd } else { Target::BucketRes2 }, 0)
@@ -379,6 +403,13 @@ fn run_case(w: &mut World, reg: &mut Registry, rng: &mut Rng) -> Result<CaseOut,
             if rng.chance(3, 4) { Op::Globalize { reserve_for: Some(own.clone()), modules: true } } else { Op::Drop },
             ActorKind::Function(if rng.bool() { own } else { sibling }),
         )
+    } else if rng.chance(1, 15) {
+        // sibling inner objects of the XRD resource manager: vault code drops a bucket / bucket code drops a vault
+        if rng.bool() {
+            (Target::BucketXrd, Op::Drop, ActorKind::MethodOn(Target::VaultXrd, 0))
+        } else {
+            (Target::VaultXrd, Op::Drop, ActorKind::MethodOn(Target::BucketXrd, 0))
+        }
     } else {
         (target_kind, op, actor_kind)
     };
@@ -485,7 +516,7 @@ fn run_case(w: &mut World, reg: &mut Registry, rng: &mut Rng) -> Result<CaseOut,
     }
 
     // ---- push the frame, issue the call
-    push_frame(&mut w.env, actor.clone(), move_nodes.clone(), globals).map_err(|e| format!("push frame: {}", e))?;
+    push_frame(&mut w.env, actor.clone(), move_nodes.clone(), globals).map_err(|e| format!("push frame ({:?} / {:?} / {:?}): {}", target_kind, actor_kind, op, e))?;
     let mut op_coq = String::new();
     let mut oracle: Result<(), String> = Ok(());
     let target_info = match type_info(&mut w.env, &target) {
@@ -523,6 +554,16 @@ fn run_case(w: &mut World, reg: &mut Registry, rng: &mut Rng) -> Result<CaseOut,
                 }
                 if right && obs == Obs::Err("EInvalidDropAccess") {
                     oracle = Err("drop by the owner refused with InvalidDropAccess".into());
+                }
+                // the rule for inner objects is the outer-object family: a sibling inner object of
+                // ANOTHER blueprint may drop it (known finding class)
+                if right && obs == Obs::Ok && actor_bp.as_ref() != Some(bp) {
+                    if let Actor::Method(m) = &actor {
+                        let is_outer_itself = matches!(&info.blueprint_info.outer_obj_info, OuterObjectInfo::Some { outer_object } if m.node_id == *outer_object.as_node_id());
+                        if !is_outer_itself {
+                            oracle = Err("KNOWN:drop_by_sibling_inner_object:drop succeeded for a method of another inner blueprint of the same outer object".into());
+                        }
+                    }
                 }
             } else if obs == Obs::Ok {
                 oracle = Err("drop_object succeeded on a node that is not an object".into());
@@ -604,6 +645,29 @@ fn run_case(w: &mut World, reg: &mut Registry, rng: &mut Rng) -> Result<CaseOut,
                 Err(e) => classify(e),
             }
         }
+        Op::KvOpen => {
+            op_coq = format!("(OKvOpen {})", reg.node(&target));
+            let key = scrypto_encode(&7u32).unwrap();
+            let r = w.env.with_kernel_mut(|k| {
+                let mut s = SystemService::new(k);
+                let h = s.key_value_store_open_entry(&target, &key, LockFlags::read_only())?;
+                s.key_value_entry_close(h)?;
+                Ok::<_, RuntimeError>(())
+            });
+            let obs = match &r {
+                Ok(_) => Obs::Ok,
+                Err(e) => classify(e),
+            };
+            // only key-value stores can be opened this way
+            let is_kv = matches!(type_info(&mut w.env, &target), Some(TypeInfoSubstate::KeyValueStore(_)));
+            if obs == Obs::Ok && !is_kv {
+                oracle = Err("key_value_store_open_entry succeeded on a node that is not a key-value store".into());
+            }
+            if !is_kv && obs != Obs::Err("ENotAKeyValueStore") && !matches!(obs, Obs::Other(_)) {
+                oracle = Err(format!("key_value_store_open_entry on a non-store answered {:?}", obs));
+            }
+            obs
+        }
         Op::State(handle) => {
             op_coq = format!("(OState {})", handle);
             let r = w.env.with_kernel_mut(|k| {
@@ -669,6 +733,7 @@ fn run_case(w: &mut World, reg: &mut Registry, rng: &mut Rng) -> Result<CaseOut,
             Op::Globalize { .. } => "globalize",
             Op::New(_) => "new",
             Op::State(_) => "state",
+            Op::KvOpen => "kvopen",
         },
         match &actor {
             Actor::Root => "root",
@@ -717,6 +782,9 @@ fn main() {
             }
             Ok(Err(setup)) => {
                 report.count("setup_failed");
+                if std::env::var("C50_DEBUG").is_ok() {
+                    eprintln!("SETUP {}", setup.chars().take(160).collect::<String>());
+                }
                 if report.notes.len() < 5 {
                     report.notes.push(setup);
                 }
@@ -763,6 +831,8 @@ fn main() {
     report.floor("drop|method|EInvalidDropAccess", n / 100);
     report.floor("globalize|function|EInvalidGlobalizeAccess", n / 100);
     report.floor("globalize|function|ok", n / 200);
+    report.floor("known_drop_by_sibling_inner_object", 1);
+    report.floor("kvopen|function|ok", 1);
     cw.write(&args.out, args.shards).unwrap();
     report.write(&args.out).unwrap();
 }
